@@ -434,7 +434,9 @@ def stepsOf : String → Nat → Option (List Step)
       if inst = 0 then some (txS [q "GetMailboxByName", q "MailboxExistsWithName", q "RenameMailboxWithRemoteID", q "GetAllMailboxesWithAttr"])
       else if inst = 1 then some (txS [q "GetMailboxByName", q "MailboxExistsWithName", q "RenameMailboxWithRemoteID", q "GetAllMailboxesWithAttr",
                                    q "GetMailboxByName", q "RenameMailboxWithRemoteID"])
-      else some (txS [q "GetMailboxByName", q "MailboxExistsWithName", q "MailboxExistsWithName", q "CreateMailboxIfNotExists",
+      -- (since gluon 67ed02b Rename reads the mailbox count before it creates anything)
+      else some (txS [q "GetMailboxByName", q "MailboxExistsWithName", q "MailboxExistsWithName", q "GetMailboxCount",
+                      q "CreateMailboxIfNotExists",
                       q "MailboxExistsWithRemoteID", q "CreateMailbox", q "GetMailboxMessageIDPairs",
                       q "MailboxFilterContains", q "MailboxFilterContains", q "GetMailboxMessageCountAndUID",
                       q "RemoveMessagesFromMailbox", q "AddMessagesToMailbox"] ++ updatesTx)
@@ -483,7 +485,7 @@ def stepsOf : String → Nat → Option (List Step)
   | "rename2", inst =>
       if inst = 1 then some (txS [q "GetMailboxByName", q "MailboxExistsWithName", q "RenameMailboxWithRemoteID", q "GetAllMailboxesWithAttr",
                                   q "GetMailboxByName", q "RenameMailboxWithRemoteID"])
-      else some (txS [q "GetMailboxByName", q "MailboxExistsWithName", q "MailboxExistsWithRemoteID", q "CreateMailbox",
+      else some (txS [q "GetMailboxByName", q "MailboxExistsWithName", q "GetMailboxCount", q "MailboxExistsWithRemoteID", q "CreateMailbox",
                       q "GetMailboxMessageIDPairs", q "MailboxFilterContains", q "MailboxFilterContains",
                       q "GetMailboxMessageCountAndUID", q "RemoveMessagesFromMailbox", q "AddMessagesToMailbox"] ++ updatesTx)
   -- DELETE of mailboxes that hold messages (leaf below a non-empty mailbox; the selected mailbox with an inferior; INBOX/kid)
